@@ -122,6 +122,9 @@ func (r *DailyRotateRule) OutdatedFiles() []string {
 
 	var outdates []string
 	for _, file := range files {
+		if !isBackupName(file, filepath.Clean(r.filename)+r.delimiter, "", dateFormat) {
+			continue
+		}
 		if file < boundaryFile {
 			outdates = append(outdates, file)
 		}
@@ -183,6 +186,13 @@ func (r *SizeLimitRotateRule) OutdatedFiles() []string {
 		return nil
 	}
 
+	backups := files[:0]
+	for _, f := range files {
+		if isBackupName(f, filepath.Join(dir, prefix+r.delimiter), ext, fileTimeFormat) {
+			backups = append(backups, f)
+		}
+	}
+	files = backups
 	sort.Strings(files)
 
 	outdated := make(map[string]lang.PlaceholderType)
@@ -444,6 +454,18 @@ func gzipFile(file string) error {
 	}
 
 	return os.Remove(file)
+}
+
+// isBackupName 判断 glob 匹配到的 file 是否真的是本规则生成的备份：
+// 去掉固定的前缀、扩展名（以及可选的 .gz）之后，剩下的部分必须是 layout 格式的时间。
+// 同目录下名字以相同前缀开头的其他日志文件（如 svc-api.log 之于 svc.log）不是备份。
+func isBackupName(file, prefix, ext, layout string) bool {
+	name := strings.TrimSuffix(file, gzipExt)
+	if !strings.HasPrefix(name, prefix) || !strings.HasSuffix(name, ext) || len(name) < len(prefix)+len(ext) {
+		return false
+	}
+	_, err := time.Parse(layout, name[len(prefix):len(name)-len(ext)])
+	return err == nil
 }
 
 // globEscape 转义 filepath.Glob 的元字符，使日志路径本身只按字面匹配。
